@@ -417,14 +417,14 @@ def gen(rng, tier):
             letters = [l for l in letters if l not in "pq"]
         for n in range(0, depth + 1):
             for word in itertools.product(letters, repeat=n):
-                if tier == "quick" and n == depth and rng.random() > 0.05:
+                if n == depth and rng.random() > (0.05 if tier == "quick" else 0.2):
                     continue
                 cases.append({"delays": delays, "prep": prep, "ops": ["start"] + [ALPHA[l] for l in word]})
         for n in range(1, 3 if tier == "quick" else 4):
             for word in itertools.product(letters, repeat=n):
                 if word[0] != "s":
                     cases.append({"delays": delays, "prep": prep, "ops": [ALPHA[l] for l in word]})
-    for _ in range(400 if tier == "quick" else 30000):
+    for _ in range(400 if tier == "quick" else 15000):
         delays = [rng.choice([0, 1, 2, 3, 5]) for _ in range(rng.randrange(1, 4))]
         k = rng.random()
         prep = [] if k < 0.3 else [rng.choice(["ok", "defer", "defer", "raise"]) for _ in range(rng.randrange(1, 4))]
@@ -516,7 +516,7 @@ SPEC = Spec(
     histogram=hist,
     rule="for three configurations (no hook; hook returning an unfired Deferred; hook raising on every other "
          "connection): 'start' followed by every word of length <= 4 (quick, the longest length sampled 5%) / <= 5 "
-         "(thorough) over {start, stop, whenConnected(None), whenConnected(1), connect ok, connect fail, prepare ok, "
+         "(thorough, the longest length sampled 20%) over {start, stop, whenConnected(None), whenConnected(1), connect ok, connect fail, prepare ok, "
          "prepare fail, drop oldest connection, advance 1s}, and every word of length <= 2 (quick) / 3 (thorough) not starting with start; "
          "plus random histories of 6-60 ops with random retry delays, hook modes, failure limits 0-3 and clock steps; "
          "non-trivial = a connection was opened and some waiter fired or a retry was scheduled; distinct by (case, observation)",
